@@ -404,7 +404,19 @@ def thorough_items(items, rnd):
         t = it["cfg"]
         if t["proto"] == "shadowsocks" and t["key"] == "password" and t["mode"] == "tcp_and_udp" and t["cipher"] in ("aes-128-gcm", "aes-256-gcm", "chacha20-poly1305", "chacha20-ietf-poly1305") and it["want"]["accept"]:
             for ln in (1, 7, 16, 24, 32, 33, 64, 200):
-                out.append(dict(it, legacy_pw="".join(rnd.choice("abcdefghijklmnopqrstuvwxyzABCDEFGHIJKLMNOPQRSTUVWXYZ0123456789+/=:-_ ") for _ in range(ln)).replace(":", ";")))
+                out.append(dict(it, legacy_pw="".join(rnd.choice("abcdefghijklmnopqrstuvwxyzABCDEFGHIJKLMNOPQRSTUVWXYZ0123456789+/=:-_ ") for _ in range(ln))))
+    return out
+
+
+def colon_items(items):
+    """An ordinary pass phrase may contain the character that separates identity keys in a 2022 credential: every legacy
+    cipher name, both sides, TCP and UDP (both tiers)."""
+    out = []
+    for it in items:
+        t = it["cfg"]
+        if t["proto"] == "shadowsocks" and t["key"] == "password" and t["mode"] == "tcp_and_udp" and t["cipher"] in ("aes-128-gcm", "aes-256-gcm", "chacha20-poly1305", "chacha20-ietf-poly1305") and it["want"]["accept"]:
+            out.append(dict(it, legacy_pw="squirrel:0ct0:pass-phrase"))
+            out.append(dict(it, legacy_pw="a:"))
     return out
 
 
@@ -483,8 +495,10 @@ def run(tier):
         it["want"]["probes"] = sorted(it["want"]["probes"])
     items.sort(key=lambda it: json.dumps(it["cfg"], sort_keys=True))
     c.cov["configuration_tuples_in_model"] = len(items)
+    base_items = items
     if tier == "thorough":
-        items = items + thorough_items(items, rnd)
+        items = items + thorough_items(base_items, rnd)
+    items = items + colon_items(base_items)
     results = asyncio.run(drive(c, items))
     recs = [r for r, _ in results]
     notes = [n for _, n in results]
